@@ -360,5 +360,94 @@ def main():
         print(json.dumps({"violates": None, "detail": "driver crashed: " + traceback.format_exc()[-600:]}))
 
 
+# (drivers added later are registered below; the entry point is at the end of the file)
+
+
+@driver
+def aggregate_accumulator_scope(args):
+    """visit_call_Aggregate_initial on the real translator: when the loops the aggregated sequence runs in were opened below the point where
+    the aggregate was requested, the accumulator must be declared at or above that point (else it is re-initialised on every iteration of
+    the enclosing loop and the aggregate only sees the last group of elements)."""
+    from func_adl_xAOD.common.ast_to_cpp_translator import query_ast_visitor
+    import func_adl_xAOD.common.statement as statement
+    real = query_ast_visitor.visit_call_Aggregate_initial
+    found = []
+
+    def parents(root):
+        out = {}
+
+        def walk(b):
+            for s in b._statements:
+                out[id(s)] = b
+                if isinstance(s, statement.block):
+                    walk(s)
+        walk(root)
+        return out
+
+    def wrapper(self, node, a):
+        entry = tuple(self._gc._scope_stack)
+        real(self, node, a)
+        acc = node.rep
+        par = parents(self._gc._block)
+        # the block that declares the accumulator, the statement that updates it
+        blocks = [self._gc._block] + [b for b in _all_blocks(self._gc._block)]
+        decl = [b for b in blocks if any(v is acc for v in b._variables)]
+        upd = [s for b in blocks for s in b._statements if isinstance(s, statement.set_var) and s._target is acc]
+        if len(decl) != 1 or len(upd) != 1:
+            found.append("accumulator %s is declared in %d blocks and updated by %d statements" % (acc.as_cpp(), len(decl), len(upd)))
+            return
+        chain = []  # ancestors of the update statement, innermost first
+        b = par.get(id(upd[0]))
+        while b is not None:
+            chain.append(b)
+            b = par.get(id(b))
+        loops_below_entry = []
+        for b in chain:
+            if b is entry[-1]:
+                break
+            if isinstance(b, statement.loop):
+                loops_below_entry.append(b)
+        else:
+            return  # the sequence does not run below the request point: nothing claimed
+        if loops_below_entry and not any(decl[0] is e for e in entry):
+            inside = [l for l in loops_below_entry if decl[0] is l or _is_ancestor(par, l, decl[0])]
+            if inside:
+                found.append("accumulator `%s` is declared inside the loop `for (auto &&%s : %s)` that was opened to run the aggregated sequence: "
+                             "it is re-initialised on every iteration" % (acc.as_cpp(), inside[-1]._loop_variable.as_cpp(), inside[-1]._collection.as_cpp()))
+
+    query_ast_visitor.visit_call_Aggregate_initial = wrapper
+    try:
+        queries = ["lambda e: e.Jets('A').Select(lambda j: j.pt()).Count()",
+                   "lambda e: e.Jets('A').SelectMany(lambda j: e.Tracks('T')).Count()",
+                   "lambda e: e.Jets('A').SelectMany(lambda j: e.Tracks('T')).Select(lambda t: t.pt()).Sum()",
+                   "lambda e: e.Jets('A').Select(lambda j: e.Tracks('T').Where(lambda t: t.pt() > j.pt())).Count()",
+                   "lambda e: e.Jets('A').Select(lambda j: e.Tracks('T').Count())",
+                   "lambda e: e.Jets('A').Where(lambda j: e.Tracks('T').Where(lambda t: t.pt() > j.pt()).Count() > 2).Count()"]
+        for qs in queries:
+            found.clear()
+            translate(_dataset().Select(qs))
+            if found:
+                return True, "%s: %s" % (qs, found[0])
+    finally:
+        query_ast_visitor.visit_call_Aggregate_initial = real
+    return False, "the accumulator of every probe query is declared outside the loops of its sequence"
+
+
+def _all_blocks(root):
+    import func_adl_xAOD.common.statement as statement
+    for s in root._statements:
+        if isinstance(s, statement.block):
+            yield s
+            yield from _all_blocks(s)
+
+
+def _is_ancestor(par, anc, b):
+    while b is not None:
+        b = par.get(id(b))
+        if b is anc:
+            return True
+    return False
+
+
 if __name__ == "__main__":
     main()
